@@ -126,4 +126,4 @@ func verifFirstShortX(maxLen int) int64 {
 func VerifHarness_C01_finalize_unit_k1()        { verifC01Finalize(1, 0, true) }
 func VerifHarness_C01_finalize_unit_k2()        { verifC01Finalize(2, 0, false) }
 func VerifHarness_C01_finalize_unit_k3_full32() { verifC01Finalize(3, 32, false) }
-func VerifHarness_C01_finalize_unit_x31()       { verifC01Finalize(verifFirstShortX(31), 0, true) }
+func VerifHarness_C01_finalize_unit_x31()       { verifC01Finalize(verifFirstShortX(31), 0, false) }
